@@ -48,7 +48,7 @@ func Gen(rt *rapid.T) Case {
 		max = 50
 	}
 	c := Case{Remote: fsmodel.Flatten(remote), Disk: hx.Chance(rt, 8, "disk")}
-	c.Ops = fsmodel.GenHistory(rt, fsmodel.GenCfg{MinOps: 1, MaxOps: max, Views: true, OddNames: true, NoisyPaths: true, Initial: remote,
+	c.Ops = fsmodel.GenHistory(rt, fsmodel.GenCfg{MinOps: 1, MaxOps: max, Views: true, OddNames: true, NoisyPaths: true, Initial: remote, Prefix: widePrefix(rt, remote),
 		DropFailingMutations: true, KeepFailingPct: 35,
 		Weights: map[string]int{"Remove": 10, "RemoveAll": 8, "ReadDir": 10, "IsExist": 6, "IsDir": 5, "IsFile": 5},
 		Hook: func(m *fsmodel.Model, op *fsmodel.Op) bool {
@@ -59,6 +59,69 @@ func Gen(rt *rapid.T) Case {
 			return true
 		}})
 	return c
+}
+
+// widePrefix (12% of the cases): a burst of 8-60 pending creations in ONE directory that also has
+// remote children, one of which is removed through the cache before or after the burst, then a
+// listing. The name pool of the drawn history gives a directory at most 16 entries; a merge of
+// buffer and remote entries that changes strategy with the number of pending nodes is never
+// reached by it.
+func widePrefix(rt *rapid.T, remote *fsmodel.Node) []fsmodel.Op {
+	if !hx.Chance(rt, 12, "wide") {
+		return nil
+	}
+	dirs := []string{""}
+	for _, n := range fsmodel.Flatten(remote) {
+		if n.Dir {
+			dirs = append(dirs, n.Path)
+		}
+	}
+	d := dirs[hx.Uniform(rt, len(dirs), "widedir")]
+	var kids []string
+	for _, n := range fsmodel.Flatten(remote) {
+		if n.Path != d && parentOf(n.Path) == d {
+			kids = append(kids, n.Path)
+		}
+	}
+	join := func(n string) string {
+		if d == "" {
+			return n
+		}
+		return d + "/" + n
+	}
+	var ops []fsmodel.Op
+	rm := func() {
+		if len(kids) == 0 {
+			return
+		}
+		k := kids[hx.Uniform(rt, len(kids), "widekid")]
+		ops = append(ops, fsmodel.Op{Op: []string{"Remove", "RemoveAll"}[hx.Uniform(rt, 2, "widerm")], Path: k})
+	}
+	before := hx.Chance(rt, 50, "widebefore")
+	if before {
+		rm()
+	}
+	n := 8 + hx.Uniform(rt, 53, "widen")
+	for i := 0; i < n; i++ {
+		name := join(fmt.Sprintf("n%d", i))
+		if hx.Chance(rt, 25, "widemk") {
+			ops = append(ops, fsmodel.Op{Op: "MkdirAll", Path: name})
+		} else {
+			ops = append(ops, fsmodel.Op{Op: "WriteFile", Path: name, Data: []byte{byte('0' + i%10)}})
+		}
+	}
+	if !before {
+		rm()
+	}
+	ops = append(ops, fsmodel.Op{Op: "ReadDir", Path: d})
+	return ops
+}
+
+func parentOf(p string) string {
+	if i := strings.LastIndex(p, "/"); i >= 0 {
+		return p[:i]
+	}
+	return ""
 }
 
 // Exec runs the history against a cache over a populated remote and the merged model.
@@ -96,6 +159,15 @@ func run(c Case) hx.Verdict {
 	v := hx.Pass()
 	if c.Disk {
 		v.Label("remote-on-disk")
+	}
+	wide := 0
+	for _, op := range c.Ops {
+		if (op.Op == "WriteFile" || op.Op == "MkdirAll") && len(op.Path) > 1 && strings.HasPrefix(op.Path[strings.LastIndex(op.Path, "/")+1:], "n") {
+			wide++
+		}
+	}
+	if wide > 16 {
+		v.Label("more-than-16-pending-creations-in-one-directory")
 	}
 	fail := func(i int, clause, detail string) hx.Verdict {
 		f := hx.Fail(clause, "%s", detail)
